@@ -22,4 +22,6 @@ def check(rep, units):
         RD.ok(provenance.count_compares(u, f) - len(dead))
         for i in dead:
             RD.fail('%s: %s' % (u.name, u.where(i, f)), 'result of this compare is never consumed', key='L-DEADCMP|%s|%#x' % (sym, i.addr - f.entry))
+    provenance.check_undef(rep, {'crc', 'crc_copy', 'adler'}, 'CRC', 34)
+    provenance.check_kwidth(rep, {'crc', 'crc_copy', 'adler'}, 'CRC', 34)
     R.samples.append('crc64_ecma_refl_by8: loads via BUF/constants only, stores only to its aligned stack frame')
